@@ -2540,13 +2540,13 @@ pub fn try_slatepack_sync_workflow(
 				None => {
 					if test_mode {
 						None
-					} else {
+					} else if let Some(tc) = tor_config.as_ref() {
 						match HttpSlateSender::with_socks_proxy(
 							&tor_addr.to_http_str(),
-							&tor_config.as_ref().unwrap().socks_proxy_addr,
-							&tor_config.as_ref().unwrap().send_config_dir,
-							tor_config.as_ref().unwrap().bridge.clone(),
-							tor_config.as_ref().unwrap().proxy.clone(),
+							&tc.socks_proxy_addr,
+							&tc.send_config_dir,
+							tc.bridge.clone(),
+							tc.proxy.clone(),
 						) {
 							Ok(s) => Some(s),
 							Err(e) => {
@@ -2554,6 +2554,10 @@ pub fn try_slatepack_sync_workflow(
 								None
 							}
 						}
+					} else {
+						// no Tor configuration: nothing to send with
+						debug!("Send (TOR): no TOR configuration");
+						None
 					}
 				}
 				Some(s) => {
